@@ -189,7 +189,7 @@ def main():
             "name": "coq-model-correspondence",
             "path": "/verif/verif.py",
             "serves_properties": sorted(CLAIMED.keys()),
-            "kind_free_text": "Coq 8.16 theorems about a hand-written executable Gallina model of ureq-proto (coq/theories), tied to /repo on every run by differential execution of generated scripts on the real crate (harness/) and on the extracted model (modelrun/), plus per-property oracles on the implementation's observations",
+            "kind_free_text": "Coq 8.16 theorems about a hand-written executable Gallina model of ureq-proto (coq/theories), tied to /repo on every run in two ways: (1) translators (tools/rs2coq.py, tools/rs2coq2.py) regenerate Gen.v / Gen2.v from the current Rust sources -- the decision tables and arithmetic of ext.rs / body.rs, and whole functions of util.rs, chunk.rs, body.rs, client/call.rs, client/flow.rs, client/amended.rs in state-passing style -- and proofs/Gen*_equiv_*.v prove those translations equivalent to the model for all arguments (re-checked against what the code says now); (2) differential execution of generated scripts on the real crate (harness/) and on the extracted model (modelrun/), plus per-property oracles on the implementation's observations",
         }],
         "checks": checks,
         "not_applicable": na,
